@@ -861,7 +861,7 @@ def run(chk):
     cases = []
     for dump, req in corpus_cases():
         cases.append(('fragment', dump, req, None))
-    n_rand = 400 if tier == 'quick' else 3500
+    n_rand = 400 if tier == 'quick' else 2500
     for _ in range(n_rand):
         a = gen_peptide(rng)
         req = gen_request(rng, tier, a.sequence)
@@ -925,7 +925,7 @@ def run(chk):
         nc = len(corpus_cases())
         sel = cases[:nc] + cases[nc::3]
     elif tier == 'thorough' and not chk.broken():
-        sel = cases[:n_sub0:2] + cases[n_sub0:n_sub1:24] + cases[n_sub1:]
+        sel = cases[:n_sub0:2] + cases[n_sub0:n_sub1:40] + cases[n_sub1:]
     else:
         sel = cases
     ocases = [ocase(c[1], c[2]) for c in sel if c[3] is None]
